@@ -2,7 +2,7 @@
 EXTENDS Integers, Sequences, TLC, Json, IOUtils
 CONSTANTS Accts, Start, Deposit
 Trace == ndJsonDeserialize(IOEnv.TRACE_FILE)
-VARIABLES l, bal, del, unb, voted, active, burned, last
+VARIABLES l, bal, del, unb, voted, active, burned, redel, last
 Paths == {}
 Ops == {}
 Amts == {}
@@ -11,7 +11,7 @@ Options == {}
 INSTANCE Adapter
 ln(k) == Trace[k]
 A(k) == ln(k).args
-TInit == l = 0 /\ bal = <<>> /\ del = <<>> /\ unb = <<>> /\ voted = <<>> /\ active = TRUE /\ burned = 0 /\ last = [act |-> "None", res |-> "ok"]
+TInit == l = 0 /\ bal = <<>> /\ del = <<>> /\ unb = <<>> /\ voted = <<>> /\ active = TRUE /\ burned = 0 /\ redel = <<>> /\ last = [act |-> "None", res |-> "ok"]
 Report(k, name, holds) == holds \/ PrintT(<<"VIOL", k, name>>)
 IsStep(k) == ln(k).ev # "Reset"
 Judge(k) ==
@@ -20,25 +20,33 @@ Judge(k) ==
   /\ IsStep(k) =>
      /\ Report(k, "C17.FailedTxChangesNothing", ln(k).res # "ok" => (ln(k).dg.pre = ln(k).dg.post /\ UNCHANGED stateVars))
      /\ Report(k, "C17.OnlySystemContractEvents", (ln(k).ev = "Tx" /\ A(k).path \in {"delegatecall", "lookalike", "fwdrevert"}) => (ln(k).ndg.pre = ln(k).ndg.post /\ UNCHANGED stateVars))
-     /\ Report(k, "C17.ForCallerOnly", ln(k).ev = "Tx" => \A a \in Accts \ {Actor(A(k).path)} : bal'[a] = bal[a] /\ del'[a] = del[a] /\ unb'[a] = unb[a] /\ voted'[a] = voted[a])
+     /\ Report(k, "C17.ForCallerOnly", ln(k).ev = "Tx" => \A a \in Accts \ {Actor(A(k).path)} : bal'[a] = bal[a] /\ del'[a] = del[a] /\ unb'[a] = unb[a] /\ voted'[a] = voted[a] /\ redel'[a] = redel[a])
      (* exactly the validator, amount and option passed, once *)
      /\ Report(k, "C17.ExactArgs", (ln(k).ev = "Tx" /\ ln(k).res = "ok" /\ Actor(A(k).path) \in Accts) =>
            LET a == Actor(A(k).path) IN
-           CASE A(k).op = "delegate"   -> del'[a] = del[a] + A(k).amt /\ bal'[a] = bal[a] - A(k).amt
-             [] A(k).op = "undelegate" -> del'[a] = del[a] - A(k).amt /\ unb'[a] = unb[a] + A(k).amt
-             [] A(k).op = "vote"       -> voted'[a] = A(k).opt
+           LET x == Target(A(k).val) IN
+           CASE A(k).op = "delegate"   -> del'[a][x] = del[a][x] + A(k).amt /\ bal'[a] = bal[a] - A(k).amt /\ del'[a][Other(x)] = del[a][Other(x)]
+             [] A(k).op = "undelegate" -> del'[a][x] = del[a][x] - A(k).amt /\ unb'[a] = unb[a] + A(k).amt /\ del'[a][Other(x)] = del[a][Other(x)]
+             [] A(k).op = "redelegate" -> del'[a][x] = del[a][x] - A(k).amt /\ del'[a][Other(x)] = del[a][Other(x)] + A(k).amt /\ bal'[a] = bal[a] /\ unb'[a] = unb[a]
+             [] A(k).op \in {"vote", "votew"} -> voted'[a] = A(k).opt
              [] OTHER -> TRUE)
+     (* two events in one transaction: each executed, all or nothing *)
+     /\ Report(k, "C17.OncePerEvent", (ln(k).ev = "Tx2" /\ ln(k).res = "ok") => (Tx2OK(A(k).val, A(k).opt, A(k).opt2) /\ voted'["dbl"] = A(k).opt2))
+     /\ Report(k, "C17.Tx2ForCallerOnly", ln(k).ev = "Tx2" => \A a \in Accts \ {"dbl"} : bal'[a] = bal[a] /\ del'[a] = del[a] /\ unb'[a] = unb[a] /\ voted'[a] = voted[a])
      (* "burned" coins go to the fee collector: total supply unchanged, the sink gains exactly the deposit *)
      /\ Report(k, "C17.BurnToCollector", ln(k).ev = "Expire" => (burned' - burned = ln(k).st.sink - Trace[k - 1].st.sink))
 C_Step(k) ==
   CASE ln(k).ev = "Tx" -> TxEff(A(k).path, A(k).op, A(k).val, A(k).amt, A(k).opt) /\ (ln(k).res = "ok") = TxOK(A(k).path, A(k).op, A(k).val, A(k).amt, A(k).opt)
+    [] ln(k).ev = "Tx2" -> Tx2Eff(A(k).val, A(k).opt, A(k).opt2) /\ (ln(k).res = "ok") = Tx2OK(A(k).val, A(k).opt, A(k).opt2)
     [] ln(k).ev = "Expire" -> ExpireEff
     [] OTHER -> FALSE
 Conform(k) == IsStep(k) => (C_Step(k) \/ PrintT(<<"DRIFT", k, ln(k).ev>>))
 F(k, f) == [a \in Accts |-> ln(k).st[a][f]]
+SeqSet(s) == {s[i] : i \in DOMAIN s}
 TNext == LET k == l + 1 IN
   /\ l < Len(Trace) /\ l' = k
-  /\ bal' = F(k, "bal") /\ del' = F(k, "del") /\ unb' = F(k, "unb") /\ voted' = F(k, "voted")
+  /\ bal' = F(k, "bal") /\ del' = [a \in Accts |-> [x \in V |-> ln(k).st[a].del[x]]] /\ unb' = F(k, "unb") /\ voted' = F(k, "voted")
+  /\ redel' = [a \in Accts |-> {<<r[1], r[2]>> : r \in SeqSet(ln(k).st[a].redel)}]
   /\ active' = ln(k).st.active /\ burned' = ln(k).st.burned
   /\ last' = [act |-> ln(k).ev, res |-> ln(k).res]
   /\ Judge(k) /\ Conform(k)
